@@ -105,7 +105,12 @@ class ListWalkerProtocol(Protocol):
             if k > 0:
                 st.event("call", recv, name, {"position": args[0] if args else kwargs["position"]}, "raised")
                 raise PyRaise(SExc((IndexError, KeyError)[k - 1], ("<walker refused the position>",), site="opaque ListWalker.set_focus"))
-        return super().call(ip, st, recv, name, args, kwargs)
+        r = super().call(ip, st, recv, name, args, kwargs)
+        if name in ("get_prev", "get_next") and isinstance(r[1], V.SInt):
+            # the position component may be compared with None by the code (`get_next(pos) == (None, None)` in
+            # ListBox.ends_visible / _keypress_page_up): None is modelled by NOPOS, and the comparison must say so
+            r = (r[0], V.SIntOrNone(r[1].e, NOPOS))
+        return r
 
 
 PROTOCOLS["ListWalker"] = ListWalkerProtocol()
